@@ -204,6 +204,7 @@ func (w *World) performNew(o *op, now time.Duration) {
 	w.opCount[k]++
 	o.nth = w.opCount[k]
 	if f := w.findFault(actor, opNew, 1); f != nil && f.Class == "fatal" {
+		o.fault = f
 		w.stat("fault.new.fatal")
 		w.fire(o, "fatal")
 		w.Log.add(now, actor, "new", "FAULT")
@@ -313,10 +314,25 @@ func (ep *Endpoint) perform(w *World, o *op, now time.Duration) {
 		if ep.SrcClosed == 1 {
 			ep.SrcClosedAt = now
 		}
+		if o.fault != nil && o.fault.Class == "fatal" {
+			// the handle is gone all the same, Close just reports an error
+			w.stat("fault.closeSource.fatal")
+			w.fire(o, "fatal")
+			w.Log.add(now, ep.Actor, "closeSource", "FAULT")
+			w.release(o, opResult{err: w.sentinel(o)})
+			return
+		}
 		w.Log.add(now, ep.Actor, "closeSource", "")
 		w.release(o, opResult{})
 	case opCloseSink:
 		ep.SinkClosed++
+		if o.fault != nil && o.fault.Class == "fatal" {
+			w.stat("fault.closeSink.fatal")
+			w.fire(o, "fatal")
+			w.Log.add(now, ep.Actor, "closeSink", "FAULT")
+			w.release(o, opResult{err: w.sentinel(o)})
+			return
+		}
 		w.Log.add(now, ep.Actor, "closeSink", "")
 		w.release(o, opResult{})
 	case opRead:
